@@ -536,8 +536,13 @@ fn locate_hang(id: &str, tier: &str, seed: u64, run: u64) -> (Vec<serde_json::Va
     (ops, finished, header)
 }
 
+/// where evidence and new replay files go (background exploration runs use their own directory)
+fn out_dir() -> String {
+    std::env::var("RVSIM_OUT").unwrap_or_else(|_| VERIF_DIR.to_string())
+}
+
 fn write_replay(id: &str, sig: &str, case: &serde_json::Value, dir: &str) -> String {
-    let d = format!("{}/{}", VERIF_DIR, dir);
+    let d = format!("{}/{}", out_dir(), dir);
     let _ = std::fs::create_dir_all(&d);
     let path = format!("{}/{}-{:08x}.json", d, id, hash_str(sig) as u32);
     let _ = std::fs::write(&path, serde_json::to_string_pretty(case).unwrap());
@@ -879,7 +884,7 @@ fn write_evidence(id: &str, tier: &str, seed: u64, st: &Stats, violations: usize
         "wall_s": wall,
         "violations": violations
     });
-    let d = format!("{}/evidence", VERIF_DIR);
+    let d = format!("{}/evidence", out_dir());
     let _ = std::fs::create_dir_all(&d);
     let _ = std::fs::write(format!("{}/{}.json", d, id), serde_json::to_string_pretty(&ev).unwrap());
 }
